@@ -10,18 +10,21 @@ import (
 type Expr interface{}
 
 type (
-	EIdent  struct{ Name string }
-	EInt    struct{ V string }
-	EStr    struct{ V string }
-	EBool   struct{ V bool }
-	ENil    struct{}
-	EUnary  struct{ Op string; X Expr }
+	EIdent struct{ Name string }
+	EInt   struct{ V string }
+	EStr   struct{ V string }
+	EBool  struct{ V bool }
+	ENil   struct{}
+	EUnary struct {
+		Op string
+		X  Expr
+	}
 	EBinary struct {
 		Op   string
 		X, Y Expr
 	}
-	ECond  struct{ C, A, B Expr }
-	ECall  struct {
+	ECond struct{ C, A, B Expr }
+	ECall struct {
 		Fn   Expr
 		Args []Expr
 	}
@@ -31,7 +34,7 @@ type (
 		Lo, Hi Expr // nil = open
 		All    bool // x[..]
 	}
-	ESel   struct {
+	ESel struct {
 		X    Expr
 		Name string
 	}
